@@ -56,8 +56,8 @@ def est_case(rng, e, sizes=None):
             'sizes': [rng.randint(0, 400)] if sizes is None else sizes}
 
 
-KNOWN_F12 = 'experiment description with qutrit_calibration_points=False'
-F12_WITNESS = {'k': 'est', 'rounds': [1], 'h': False, 'c': False, 'reps': 2, 'data': [0], 'anc': [10], 'sizes': []}
+KNOWN_FLAG_OFF = 'experiment description with qutrit_calibration_points=False'
+FLAG_OFF_WITNESS = {'k': 'est', 'rounds': [1], 'h': False, 'c': False, 'reps': 2, 'data': [0], 'anc': [10], 'sizes': []}
 
 
 def gen_cases(rng, tier):
@@ -95,7 +95,7 @@ def corpus():
     exps = [exp_case(r, [0, 3, 6, 2], True, 2, 'anc', c=True), exp_case(r, [0], False, 1, 'anc', c=False),
             exp_case(r, [1, 0], True, 3, 'both', c=False), exp_case(r, [5], False, 1, 'data', c=True)]
     # the witness of known finding F15 (known_findings.json) is replayed first on every run
-    return [dict(F12_WITNESS)] + exps + [est_case(r, exps[0]), est_case(r, exps[3])]
+    return [dict(FLAG_OFF_WITNESS)] + exps + [est_case(r, exps[0]), est_case(r, exps[3])]
 
 
 def est_expected(L, size):
@@ -115,7 +115,7 @@ def known_class(c, o):
     pairs = list(zip(o['sizes'], o['ests']))
     clause_fails = any(e != est_expected(o['L'], s) for s, e in pairs)
     known_behaviour = o['L'] > o['L_rep'] >= 1 and all(e == est_expected(o['L_rep'], s) for s, e in pairs)
-    return KNOWN_F12 if clause_fails and known_behaviour else None
+    return KNOWN_FLAG_OFF if clause_fails and known_behaviour else None
 
 
 def lz(l):
